@@ -678,7 +678,7 @@ def rule_pairs(eng, ctx):
                                 if a[0] == "cmp":
                                     for x, y, o in ((a[4], a[5], a[2]), (a[5], a[4], facts._flip_op(a[2]))):
                                         if o in ("<=", "<") and canon(strip_all_casts(x)) == scan:
-                                            yy = strip_all_casts(y)
+                                            yy = strip_all_casts(facts.expand(f, y))
                                             if yy.get("k") == "bin" and yy.get("op") == "-" and canon(strip_all_casts(yy["l"])) == cs and const_value(yy["r"]) == pr.off:
                                                 g2 = a
                             if g2 is not None and lbn >= pr.off:
@@ -879,10 +879,14 @@ def rule_copies(eng):
     fb, res = eng.fb, eng.res
     for f in eng.fns:
         for c in f.calls():
-            nm = callee_name(c)
-            if nm not in COPY or len(c.get("args", [])) != 3:
+            ca = facts.copy_args(c)
+            if ca is None:
                 continue
-            dst, src, ln = c["args"]
+            dst, src, ln = ca
+            if ln is None:
+                res.bad("C02-R3", "%s:copy@%s" % (f.name.replace(NS, ""), (c.get("loc") or "").split(":", 1)[-1]), c.get("loc"),
+                        "iterator-range copy `%s`: not in the inventory of justified copy forms" % canon(c)[:120])
+                continue
             key = "%s:copy@%s" % (f.name.replace(NS, ""), (c.get("loc") or "").split(":", 1)[-1])
             ok, why = justify_copy(eng, f, c, dst, src, ln)
             res.check(ok, "C02-R3", key, c.get("loc"), why, "raw copy `%s` in %s: %s" % (canon(c)[:160], f.name, why))
@@ -977,7 +981,7 @@ def justify_copy(eng, f, c, dst, src, ln):
                     if a[0] == "cmp":
                         for x, y, o in ((a[4], a[5], a[2]), (a[5], a[4], facts._flip_op(a[2]))):
                             if o in ("<=", "<") and canon(strip_all_casts(x)) == lcan:
-                                yy = strip_all_casts(y)
+                                yy = strip_all_casts(facts.expand(f, y))
                                 if yy.get("k") == "bin" and yy.get("op") == "-" and canon(strip_all_casts(yy["l"])) == sdecl and const_value(yy["r"]) == ps.off:
                                     g = a
                                 if canon(yy) == sdecl and ps.off == 0:
@@ -1454,7 +1458,7 @@ def rule_ownership(eng):
         for f in fb.fns(cn + "::" + cn.split("::")[-1]):
             if len(f.params) == 3:
                 stores = [i for i in f.raw.get("inits", []) if i.get("field") and f.params[1]["decl"] in reads(i.get("e", {}))]
-                copies = [c for c in f.calls() if callee_name(c) in COPY and f.params[1]["decl"] in reads(c["args"][1])]
+                copies = [c for c in f.calls() if facts.copy_args(c) and f.params[1]["decl"] in reads(facts.copy_args(c)[1])]
                 res.check(not stores and len(copies) == 1, "C02-R7", "copy-in:" + cn.replace(NS, ""), f.loc, "constructor copies the bytes into its own vector",
                           "%s(type,data,size) keeps the caller's pointer instead of copying" % cn)
 
